@@ -17,7 +17,7 @@ ASSUMPTIONS = [
     'shapes (3,), (2,2), (2,3), (3,3), length 8 for sum/cumsum/max, clip on (3,) and (2,2) only, sorted groups of at most 3 elements; n_word <= 12 (dot <= 8, prod/cumprod: at most 3 factors of <= 6 bits)',
     'the specification is written on the cell codes: sums and products as integer terms (symbolic products are shared terms), max/min/sort/clip '
     'as min/max networks (the sorted sequence is unique, so "ordered permutation" is stated as equality with the sorting network output)',
-    'clip bounds are plain numbers, the values of two in-range codes with lower <= upper',
+    'clip bounds are plain numbers on the operand grid with lower <= upper; the lower one from three ranges below up to the maximum, the upper one from the minimum up to three ranges above',
 ]
 LINEAR = ('sum', 'cumsum', 'trace', 'max', 'min', 'sort', 'clip', 'transpose', 'diagonal')
 SHAPES = ([3], [2, 2], [2, 3], [3, 3])
@@ -56,6 +56,11 @@ def configs(tier, seed):
                         allc.append(dict(fn=fn, x=list(x), shape=shape, axis=ax))
     for c in C.pick(allc, 260 if tier == 'quick' else len(allc), rng):
         out.append(dict(c, route=rng.choice(('numpy', 'method'))))
+    if tier == 'quick':
+        # clip is rare in the sample above: always one unsigned and one signed operand on three cells
+        for sg in (False, True):
+            cands = [c for c in allc if c['fn'] == 'clip' and c['shape'] == [3] and c['x'][0] is sg and c['x'][1] <= 8]
+            out.append(dict(rng.choice(cands), route=rng.choice(('numpy', 'method'))))
     pc = []
     for fn in ('prod', 'cumprod'):
         for shape in ([2], [3], [2, 2], [3, 2], [2, 3]):
@@ -92,8 +97,9 @@ def inputs(cfg):
         for i in range(C.size_of(cfg['shape2'])):
             sp['b%d' % i] = dict(kind='int', lo=lo2, hi=hi2)
     if cfg['fn'] == 'clip':
-        sp['lo'] = dict(kind='int', lo=lo, hi=hi)
-        sp['hi'] = dict(kind='int', lo=lo, hi=hi)
+        span = hi - lo + 1
+        sp['lo'] = dict(kind='int', lo=lo - 2 * span, hi=hi)          # the lower bound may lie below the format's range (negative for unsigned operands),
+        sp['hi'] = dict(kind='int', lo=lo, hi=hi + 2 * span)          # the upper one above it; the clipped values are representable either way
     return sp
 
 
